@@ -85,6 +85,36 @@ def abstract_monomials(t):
     return walk(t), len(table)
 
 
+CROSS = {"rate": 0}   # every k-th unsat query (by goal hash) is re-decided by cvc5; 0 = off (quick tier)
+
+
+def cvc5_decide(goal, timeout_ms=20000):
+    """Re-decide a z3 goal with the cvc5 wheel (SMT-LIB2 dump of the z3 solver). Returns 'sat' / 'unsat' / 'unknown' / 'error:...'."""
+    try:
+        import cvc5
+        zs = z3.Solver()
+        zs.add(goal)
+        smt = zs.to_smt2()
+        tm = cvc5.TermManager()
+        slv = cvc5.Solver(tm)
+        slv.setOption("tlimit-per", str(int(timeout_ms)))
+        slv.setLogic("ALL")
+        ip = cvc5.InputParser(slv)
+        ip.setStringInput(cvc5.InputLanguage.SMT_LIB_2_6, smt, "q")
+        sm = ip.getSymbolManager()
+        res = "unknown"
+        while True:
+            cmd = ip.nextCommand()
+            if cmd.isNull():
+                break
+            out = cmd.invoke(slv, sm).strip()
+            if out in ("sat", "unsat", "unknown"):
+                res = out
+        return res
+    except Exception as e:  # noqa
+        return f"error:{type(e).__name__}"
+
+
 class Q:
     """One solver query: assumptions /\\ guard /\\ not claim."""
 
@@ -290,6 +320,8 @@ class Worker:
                     verdict, model = "sat", m2
                     break
         q = {"name": name, "verdict": verdict, "time": round(dt, 4), "hash": h, "nvars": nv, "config": self.config}
+        if verdict == "unsat" and CROSS["rate"] and int(h, 16) % CROSS["rate"] == 0 and not SOM["on"] and not abstract_nonlinear:
+            q["cvc5"] = cvc5_decide(goal)
         self.res.queries.append(q)
         if sample and len(self.res.samples) < 3:
             txt = goal.sexpr()
@@ -364,6 +396,7 @@ class Check:
         self.notes = []
         self.functions = {}
         self.timeout_ms = 60000 if tier == "quick" else 300000
+        CROSS["rate"] = 0 if tier == "quick" else 20   # thorough: a stratified 5 % of the unsat queries also go to cvc5
 
     def run(self, fn, configs, nproc=None):
         res = run_configs(fn, self.pid, configs, self.timeout_ms, self.known, nproc)
@@ -421,6 +454,8 @@ class Check:
         n_unk = sum(1 for q in queries if q["verdict"] not in ("sat", "unsat"))
         nontrivial = {q["hash"] for q in queries if q["nvars"] >= 1}
         vac_bad = [v for v in vac if v["verdict"] != "sat"]
+        cross = [q for q in queries if "cvc5" in q]
+        cross_disagree = [q for q in cross if q["cvc5"] == "sat"]
         folded = sum(r["folded"] for r in self.results)
         solver_time = sum(q["time"] for q in queries)
         if not samples:
@@ -441,7 +476,9 @@ class Check:
             path = os.path.join(rep_dir, f"{self.pid}-{i}.json")
             json.dump({"property": self.pid, **v}, open(path, "w"), indent=1, default=str)
             lines.append(f"VIOLATION property={self.pid} replay={path}")
-        harness_error = bool(errors) or bool(vac_bad) or self.validation["mismatches"] > 0
+        harness_error = bool(errors) or bool(vac_bad) or self.validation["mismatches"] > 0 or bool(cross_disagree)
+        if cross_disagree:
+            self.notes.append(f"cvc5 disagrees with z3 on {len(cross_disagree)} queries, e.g. {cross_disagree[0]['name']}")
         ev = {
             "property_id": self.pid, "tier": self.tier, "seed": self.seed, "level": self.level,
             "coverage": {
@@ -465,6 +502,9 @@ class Check:
                 "translator_validation": self.validation,
                 "solver_time_s": round(solver_time, 2),
                 "solver": f"z3 {z3.get_version_string()}",
+                "cvc5_crosscheck": {"queries": len(cross), "agree_unsat": sum(1 for q in cross if q["cvc5"] == "unsat"),
+                                    "cvc5_inconclusive": sum(1 for q in cross if q["cvc5"] not in ("sat", "unsat")),
+                                    "disagreements": len(cross_disagree)},
                 "explanation": explanation,
                 "trusted_base": trusted or ["pysym evaluator (validated against the compiled kernels each run)", "z3"],
                 "harness_errors": errors[:5],
